@@ -133,6 +133,26 @@ def angle_obj(i):
     return svg.Angle.degrees(degrees(i))
 
 
+ID6 = [[1, 1], [0, 1], [0, 1], [1, 1], [0, 1], [0, 1]]
+
+
+def identity_test(m, val, what):
+    """is_identity() holds exactly for the neutral element (decided where the specification's value is exactly
+    representable: entries that are integers or dyadic)"""
+    exact = all(v[1] in (1, 2, 4, 8) for v in val)
+    want = [list(v) for v in val] == ID6
+    try:
+        got = m.is_identity()
+    except Exception as e:
+        return [{"clause": "Identity", "detail": "%s: is_identity() raised %s" % (what, type(e).__name__)}]
+    ent = (m.a, m.b, m.c, m.d, m.e, m.f)
+    if want and ent == (1, 0, 0, 1, 0, 0) and not got:
+        return [{"clause": "Identity", "detail": "%s: is_identity() = False on the matrix %r" % (what, ent)}]
+    if exact and not want and got and max(abs(x - y) for x, y in zip(ent, (1, 0, 0, 1, 0, 0))) > 1e-9:
+        return [{"clause": "Identity", "detail": "%s: is_identity() = True, the value is %s" % (what, [float(rat(v)) for v in val])}]
+    return []
+
+
 def apply_op(m, op, f, alt):
     if op in ("pre", "post"):
         name, nums, angs = f
@@ -189,6 +209,7 @@ def check_case(case):
                 dis.append({"clause": "Raises", "detail": "Matrix(%r) raised %s: %s" % (s, type(e).__name__, str(e)[:60]), "string": s})
                 continue
             d = cmp_matrix(m, val, "Matrix(%r)" % s)
+            d += identity_test(m, val, "Matrix(%r)" % s)
             if not d:
                 p = svg.Point(3, -7) * m
                 if abs(p.x - px) > 1e-9 * max(1, abs(px)) or abs(p.y - py) > 1e-9 * max(1, abs(py)):
@@ -220,6 +241,7 @@ def check_case(case):
                 dis.append({"clause": "Raises", "detail": "ops %s raised %s: %s" % (hist, type(e).__name__, str(e)[:60])})
                 continue
             d = cmp_matrix(m, val, "ops %s" % ([(o, f[0] if f else "") for o, f in hist],))
+            d += identity_test(m, val, "ops %s" % ([(o, f[0] if f else "") for o, f in hist],))
             if not d:
                 p = svg.Point(3, -7) * m
                 if abs(p.x - px) > 1e-9 * max(1, abs(px)) or abs(p.y - py) > 1e-9 * max(1, abs(py)):
@@ -264,9 +286,12 @@ def run(tier, seed):
                 run.sample({"mode": case["mode"], "hist": case["hist"], "expected_matrix": case["val"]})
             n += 1
         # beyond the exhaustive bound: lists / operation histories of 8 entries
-        sres, vals = engine.simulate_cases(work, "MC_C04", {"MaxLen": 8, "Full": "TRUE"}, num=(2 if tier == "quick" else 80), depth=10, seed=seed + 1)
-        run.add_tlc(sres, "TransformList lists and Matrix histories of length 8 by TLC -simulate (%d behaviours)" % sres["behaviours"])
-        sim = [{"mode": v[1], "hist": v[2], "val": v[3], "img": v[4], "seed": seed} for v in vals]
+        sim = []
+        for part in range(1 if tier == "quick" else 10):       # several short runs: a 32-bit overflow in the exact arithmetic ends only one of them
+            sres, vals = engine.simulate_cases(work, "MC_C04", {"MaxLen": 8, "Full": "TRUE"}, num=(2 if tier == "quick" else 8), depth=10,
+                                               seed=seed + 1 + 1000 * part)
+            run.add_tlc(sres, "TransformList lists and Matrix histories of length 8 by TLC -simulate (%d behaviours)" % sres["behaviours"])
+            sim += [{"mode": v[1], "hist": v[2], "val": v[3], "img": v[4], "seed": seed} for v in vals]
         for case, r in engine.replay("harness.c04", sim, chunk=300):
             run.record(case, r, key=r["class"])
         run.extra["simulated_histories_replayed"] = len(sim)
